@@ -15,7 +15,8 @@
    below.  This file contains only statements closed by [exact]. *)
 From Coq Require Import String Ascii List Bool Arith ZArith.
 From Shoot Require Import Base.Str Base.GoVal Model.Transfer Model.CtorDirective Model.Ctor Model.CtorSpec.
-From Shoot Require Import Proofs.CtorFlattenProofs Proofs.CtorResolveProofs Proofs.CtorNewProofs Proofs.CtorC02Proofs.
+From Shoot Require Import Proofs.CtorFlattenProofs Proofs.CtorResolveProofs Proofs.CtorNewProofs Proofs.CtorC02Proofs
+                          Proofs.CtorOrderProofs.
 Import ListNotations.
 Local Open Scope string_scope.
 
@@ -52,7 +53,6 @@ Theorem C02_new_wiring : forall pkg fl fuel sd fs hn vals,
   flatten pkg fl fuel sd = COk (fs, hn) ->
   c02_guard pkg fuel sd = true ->
   let nd := make_new sd hn fs in
-  NoDup (map fst (nd_params nd)) ->
   length vals = length (nd_params nd) ->
   exists v, eval_new pkg fuel sd (nd_body nd) (bind_args (nd_params nd) vals) = Ok v /\
     (forall i p t, nth_error (nd_params nd) i = Some (p, t) ->
@@ -68,8 +68,37 @@ Theorem C02_new_wiring : forall pkg fl fuel sd fs hn vals,
        lookup v [n] = Ok VZero) /\
     (forall e, In e fs -> f_embedded e = true ->
        exists kv, lookup v (f_path e) = Ok (if f_ptr e then VPtr (VStruct kv) else VStruct kv)).
-Proof. exact new_wiring. Qed.
+Proof. exact new_wiring_guarded. Qed.
 Print Assumptions C02_new_wiring.
+
+(* the guard on the input makes the parameter names distinct (NewT is a legal signature) *)
+Theorem C02_parameter_names_distinct : forall pkg fl fuel sd fs hn,
+  flatten pkg fl fuel sd = COk (fs, hn) ->
+  c02_guard pkg fuel sd = true ->
+  NoDup (map fst (nd_params (make_new sd hn fs))).
+Proof. exact params_distinct. Qed.
+Print Assumptions C02_parameter_names_distinct.
+
+(* order: the parameters' fields are an order-preserving sub-list of the leaves of the
+   struct graph taken in declaration order, depth first through embedded structs
+   ([leaf_paths], defined from the struct graph alone) *)
+Theorem C02_parameters_follow_declaration_order : forall pkg fl fuel sd fs hn,
+  flatten pkg fl fuel sd = COk (fs, hn) ->
+  c02_guard pkg fuel sd = true ->
+  subseq (map f_path (filter (pentry hn) fs)) (leaf_paths pkg fuel (self_inst sd) []).
+Proof. exact params_follow_declaration_order. Qed.
+Print Assumptions C02_parameters_follow_declaration_order.
+
+(* coverage: every leaf of the struct graph is a leaf entry of the flattened list or an
+   excluded field of the struct itself, so C02_new_wiring speaks about EVERY field *)
+Theorem C02_leaves_covered : forall pkg fl fuel sd fs hn p,
+  flatten pkg fl fuel sd = COk (fs, hn) ->
+  c02_guard pkg fuel sd = true ->
+  In p (leaf_paths pkg fuel (self_inst sd) []) ->
+  (exists e, In e fs /\ f_embedded e = false /\ f_path e = p) \/
+  (exists fd n, In fd (sd_fields sd) /\ In n (fd_names fd) /\ excluded_decl fd n = true /\ p = [n]).
+Proof. exact leaves_covered. Qed.
+Print Assumptions C02_leaves_covered.
 
 (* order and restriction: the parameters are, in the (depth-first declaration)
    order of the flattened list, exactly the entries that are leaves, unshadowed,
@@ -94,6 +123,13 @@ Theorem C02_generics : forall sd hn fs,
   map (fun g => (String.concat ", " (tp_names g), con_text (tp_con g))) (sd_tparams sd).
 Proof. exact new_generics. Qed.
 Print Assumptions C02_generics.
+
+(* termination: with the embedding depth below the fuel (the acyclicity / depth part of
+   the guard) the analysis never runs out of fuel, for every flag record *)
+Theorem C02_bounded_depth_terminates : forall pkg fl fuel sd,
+  depth_bounded pkg fuel sd = true -> flatten pkg fl fuel sd <> COutOfFuel.
+Proof. exact flatten_terminates. Qed.
+Print Assumptions C02_bounded_depth_terminates.
 
 (* K_ctor_self_embed: for a struct whose first field embeds a pointer to itself the
    expansion runs out of fuel for EVERY fuel (the code does not terminate) *)
